@@ -129,6 +129,10 @@ def yaml_of(fs, scope, libname):
         y["declarations"] = [{"decl": "namespace outer", "declarations": decls}]
     elif scope == "ns2":
         y["declarations"] = [{"decl": "namespace outer", "declarations": [{"decl": "namespace inner", "declarations": decls}]}]
+    elif scope == "flat":
+        # a namespace folded into the module of its parent (F_flatten_namespace): Fortran names carry the namespace
+        y["options"]["F_flatten_namespace"] = True
+        y["declarations"] = [{"decl": "namespace inner1", "declarations": decls}]
     elif scope == "class":
         # methods of a class: C names carry the class, Fortran has type-bound generics
         y["options"]["wrap_python"] = False
@@ -304,8 +308,9 @@ def un_camel_ref(s):
 
 def build_trace(fs, scope, libname, outdir):
     crows, frows, generics, py, lua = read_tables(outdir, libname)
-    cprefix = libname[:3].upper() + "_" + {"ns": "outer_", "ns2": "outer_inner_", "class": "Cone_"}.get(scope, "")
-    fprefix = "cone_" if scope == "class" else ""
+    cprefix = libname[:3].upper() + "_" + {"ns": "outer_", "ns2": "outer_inner_", "class": "Cone_", "flat": "inner1_"}.get(scope, "")
+    fprefix = {"class": "cone_", "flat": "inner1_"}.get(scope, "")
+    gprefix = "" if scope == "class" else fprefix
     if scope == "class":
         # the object a method is called on is not part of the C++ signature
         for r in crows:
@@ -328,8 +333,12 @@ def build_trace(fs, scope, libname, outdir):
         r["name"] = cname2name.get(r["cname"], "?")
         r["name_cp"] = enc(r["name"])
         r["fname_cp"] = enc(r["fname"])
+    for g in generics:
+        owner = [r["name"] for r in frows if r["fname"] in g["members"]]
+        g["name_cp"] = enc(owner[0] if owner else "?")
+        g["gname_cp"] = enc(g["gname"])
     return {"funcs": fs, "crows": crows, "frows": frows, "generics": generics, "py": py, "lua": lua,
-            "cprefix": enc(cprefix), "fprefix": enc(fprefix)}
+            "cprefix": enc(cprefix), "fprefix": enc(fprefix), "gprefix": enc(gprefix)}
 
 
 def one(job):
@@ -395,7 +404,7 @@ def run(tier):
         jobs = []
         with common.scratch("c08-") as base:
             for i, fs in enumerate(scopes):
-                jobs.append((fs, ["lib", "class", "ns", "lib", "ns2", "ns"][i % 6], i, base))
+                jobs.append((fs, ["lib", "class", "ns", "flat", "ns2", "ns", "lib"][i % 7], i, base))
             rjobs = [(decls, names, "ns" if k % 2 else "lib", 100000 + k, base) for k, (decls, names) in enumerate(rank_generic_scopes())]
             with cf.ThreadPoolExecutor(common.NCPU) as ex:
                 results = list(ex.map(one, jobs))
@@ -417,7 +426,7 @@ def run(tier):
                 k = json.loads(json.dumps(t))
                 k["frows"] = k["frows"][:-1]
                 controls.append(k)
-        keep = ("funcs", "crows", "frows", "generics", "py", "lua", "cprefix", "fprefix")
+        keep = ("funcs", "crows", "frows", "generics", "py", "lua", "cprefix", "fprefix", "gprefix")
         verdicts, st = validate_traces("Trace_Naming", "Trace_Naming", [dict({k: t[k] for k in keep}, relaxed=bool(t.get("relaxed"))) for t in traces + controls],
                                        shard=1000)
         c.add_stats(st, "trace_validation", len(traces))
